@@ -3,6 +3,7 @@ import Driver.Sched
 import Driver.Guard
 import Driver.Unwind
 import Driver.PtrCell
+import Driver.CallRec
 import Driver.Dict
 import Driver.BlockAlloc
 import Driver.EventQueue
@@ -24,6 +25,7 @@ def main (args : List String) : IO UInt32 := do
   | ["guard"] => Driver.Guard.main; return 0
   | ["unwind"] => Driver.Unwind.main; return 0
   | ["ptrcell"] => Driver.PtrCell.main; return 0
+  | ["callrec"] => Driver.CallRec.main; return 0
   | ["dict"] => Driver.Dict.main; return 0
   | ["blockalloc"] => Driver.BlockAlloc.main; return 0
   | ["eventqueue"] => Driver.EventQueue.main; return 0
